@@ -114,6 +114,21 @@ def data_level_cases(ctx):
     """Invalid data outside the program language: unequal rows, unsupported dtypes, 3-D, zero rows, missing data set."""
     from dliswriter import DLISFile
     rng = ctx.rng('data')
+    # a data set that is missing must raise also when an EARLIER, rejected add_channel carried an array for that name
+    for bad_kw in ({'cast_dtype': np.int64}, {'units': 5}, {'dimension': 'wide'}):
+        df = DLISFile()
+        lf = df.add_logical_file()
+        lf.add_origin('O', file_set_number=1, creation_time='2020/01/01 00:00:00')
+        rej = impl.outcome(lambda: lf.add_channel('RPM', data=np.arange(5, dtype=np.float64) + 700, **bad_kw))
+        a = lf.add_channel('DEPTH', data=np.arange(5, dtype=np.float64))
+        b = lf.add_channel('RPM')
+        lf.add_frame('F', channels=[a, b])
+        o = impl.outcome(lambda: impl.write_real(df))
+        ctx.count('K-data-invalid', key=('missing_after_rejected_call', str(sorted(bad_kw))))
+        if rej[0] == 'ok':
+            ctx.stat('K-data-invalid', 'rejection_expected_but_accepted')
+        elif o[0] == 'ok':
+            ctx.violation('missing-data-set-accepted', {'history': 'add_channel(RPM, data=..., %s) rejected; add_channel(RPM) without data; write() without data' % sorted(bad_kw)})
     cases = []
     for bad in ['rows_longer', 'rows_shorter', 'rows_one', 'int64', 'float16', 'bool', 'complex', 'str', 'three_d', 'zero_rows', 'missing', 'object']:
         for kind in ['inline', 'dict']:
